@@ -25,7 +25,7 @@ def Pc.isPublished : Pc → Bool
   | .qSwapped _ _ _ => false | .sRaising _ => false | .sRaised _ _ => false | .sDone => false
   | .rTop => false | .rLdHigh _ => false | .rLdLow _ _ => false | .rRdBuf _ _ _ => false | .rCleared _ _ => false
   | .rGotHead _ => false | .rGotNext _ _ => false | .rMoved _ _ => false | .rGotData _ _ => false
-  | .rWrote _ _ => false | .rEmpty => false | .rWaiting => false | .rDone _ => false
+  | .rWrote _ _ => false | .rEmpty => false | .rWaiting => false | .rDone _ => false | .tEmpty => false
 
 def inFlight (s : St) (g : Nat) : Prop := (s.pc g).isPublished = true
 
@@ -57,6 +57,6 @@ structure WInv (s : St) : Prop where
 theorem winv_init (k : Kind) (cap : Nat) : WInv (init k cap) := by
   constructor
   · exact Signal.pinv_init
-  all_goals simp [init, Signal.pinit, avail, headNext, PPc.inWait, committed, inFlight, Pc.isPublished]
+  all_goals simp [init, initM, Signal.pinit, avail, headNext, PPc.inWait, committed, inFlight, Pc.isPublished]
 
 end LibfiberVerif.Chan
